@@ -1,3 +1,213 @@
 package main
 
-func runC18Recorder(c *Ctx) {}
+import (
+	"fmt"
+	"sort"
+	"strings"
+	"sync"
+
+	admissionv1 "k8s.io/api/admission/v1"
+	"k8s.io/apimachinery/pkg/runtime/schema"
+	compbasemetrics "k8s.io/component-base/metrics"
+	"k8s.io/pod-security-admission/api"
+	"k8s.io/pod-security-admission/metrics"
+)
+
+type metricEvent struct {
+	kind     string
+	decision string
+	level    string
+	minor    int // -1 latest
+	mode     string
+	fatal    bool
+	op       string
+	group    string
+	resource string
+	sub      string
+}
+
+func (e metricEvent) json() J {
+	return J{"kind": e.kind, "decision": e.decision, "level": e.level, "version": minorJSON(e.minor), "mode": e.mode, "fatal": e.fatal,
+		"rop": e.op, "group": e.group, "resource": e.resource, "sub": e.sub}
+}
+
+func (e metricEvent) attrs() api.Attributes {
+	return &api.AttributesRecord{Operation: admissionv1.Operation(e.op), Resource: schema.GroupVersionResource{Group: e.group, Version: "v1", Resource: e.resource}, Subresource: e.sub}
+}
+
+// gather: the three counter vectors of a recorder as label-tuple -> value
+func gather(reg compbasemetrics.KubeRegistry) (map[string]map[string]int, error) {
+	mfs, err := reg.Gather()
+	if err != nil {
+		return nil, err
+	}
+	order := map[string][]string{
+		"pod_security_evaluations_total": {"decision", "policy_level", "policy_version", "mode", "request_operation", "resource", "subresource"},
+		"pod_security_exemptions_total":  {"request_operation", "resource", "subresource"},
+		"pod_security_errors_total":      {"fatal", "request_operation", "resource", "subresource"},
+	}
+	out := map[string]map[string]int{}
+	for _, mf := range mfs {
+		names, ok := order[mf.GetName()]
+		if !ok {
+			continue
+		}
+		m := map[string]int{}
+		for _, metric := range mf.Metric {
+			vals := map[string]string{}
+			for _, lp := range metric.Label {
+				vals[lp.GetName()] = lp.GetValue()
+			}
+			var tuple []string
+			for _, n := range names {
+				tuple = append(tuple, vals[n])
+			}
+			if v := int(metric.Counter.GetValue()); v != 0 {
+				m[canon(tuple)] = v
+			}
+		}
+		out[mf.GetName()] = m
+	}
+	return out, nil
+}
+
+func leanCounts(j any) map[string]int {
+	m := map[string]int{}
+	arr, _ := j.([]any)
+	for _, e := range arr {
+		p := e.([]any)
+		if v := int(p[1].(float64)); v != 0 {
+			m[canon(p[0])] = v
+		}
+	}
+	return m
+}
+
+// runC18Recorder: the real PrometheusRecorder fed from 16 goroutines with Reset barriers, gathered totals vs the model's;
+// and the policy_version label of every recorded series is latest / future / a version not newer than the server's.
+func runC18Recorder(c *Ctx) {
+	rounds := sizes(c, 12, 120)
+	r := NewRng(c.Seed + 1818)
+	for round := 0; round < rounds; round++ {
+		serverMinor := pick(r, []int{0, 1, 25, 32, 33, 40})
+		rec := metrics.NewPrometheusRecorder(api.MajorMinorVersion(1, serverMinor))
+		reg := compbasemetrics.NewKubeRegistry()
+		rec.MustRegister(reg.MustRegister)
+		var all []J
+		phases := 1 + r.Intn(3)
+		for ph := 0; ph < phases; ph++ {
+			n := 200 + r.Intn(2000)
+			evs := make([]metricEvent, n)
+			for i := range evs {
+				e := metricEvent{op: pick(r, []string{"CREATE", "UPDATE", "CREATE", "UPDATE", "DELETE", "CONNECT"}), sub: pick(r, []string{"", "", "", "status", "ephemeralcontainers"})}
+				switch r.Intn(4) {
+				case 0:
+					e.group, e.resource = "", "pods"
+				case 1:
+					e.group, e.resource = "apps", "deployments"
+				case 2:
+					e.group, e.resource = "", "namespaces"
+				default:
+					e.group, e.resource = "apps", "pods" // a pods resource of another group is a controller
+				}
+				switch r.Intn(6) {
+				case 0:
+					e.kind = "exempt"
+				case 1:
+					e.kind, e.fatal = "error", r.Bool()
+				default:
+					e.kind = "eval"
+					e.decision = pick(r, []string{"allow", "deny"})
+					e.level = pick(r, validLevels)
+					e.minor = pick(r, []int{-1, 0, 1, 7, 25, 31, 32, 33, 34, 41, 100, 9999, 123456789})
+					e.mode = pick(r, []string{"enforce", "audit", "warn"})
+				}
+				evs[i] = e
+			}
+			// record concurrently
+			var wg sync.WaitGroup
+			for g := 0; g < 16; g++ {
+				wg.Add(1)
+				go func(g int) {
+					defer wg.Done()
+					for i := g; i < len(evs); i += 16 {
+						e := evs[i]
+						switch e.kind {
+						case "exempt":
+							rec.RecordExemption(e.attrs())
+						case "error":
+							rec.RecordError(e.fatal, e.attrs())
+						default:
+							rec.RecordEvaluation(metrics.Decision(e.decision), mkLV(e.level, e.minor), metrics.Mode(e.mode), e.attrs())
+						}
+					}
+				}(g)
+			}
+			wg.Wait()
+			c.Eval(n)
+			for _, e := range evs {
+				all = append(all, e.json())
+			}
+			got, err := gather(reg)
+			if err != nil {
+				c.Violate(Finding{Desc: "gathering metrics failed: " + err.Error(), Key: "gather"})
+				return
+			}
+			out := c.Lean([]J{{"op": "metricCounts", "server": []int{1, serverMinor}, "events": all}})[0]
+			want := map[string]map[string]int{"pod_security_evaluations_total": leanCounts(out["evaluations"]), "pod_security_exemptions_total": leanCounts(out["exemptions"]), "pod_security_errors_total": leanCounts(out["errors"])}
+			for name, w := range want {
+				g := got[name]
+				if g == nil {
+					g = map[string]int{}
+				}
+				if canon(g) != canon(w) {
+					var diffs []string
+					keys := map[string]bool{}
+					for k := range g {
+						keys[k] = true
+					}
+					for k := range w {
+						keys[k] = true
+					}
+					for k := range keys {
+						if g[k] != w[k] {
+							diffs = append(diffs, fmt.Sprintf("%s: recorded %d, expected %d", k, g[k], w[k]))
+						}
+					}
+					sort.Strings(diffs)
+					if len(diffs) > 5 {
+						diffs = diffs[:5]
+					}
+					c.Violate(Finding{Desc: fmt.Sprintf("%s after %d concurrent recordings (server v1.%d, %d resets): %s", name, len(all), serverMinor, ph, strings.Join(diffs, "; ")), Key: "metric-counts",
+						Input: J{"server": serverMinor, "events": len(all), "phase": ph}})
+				}
+			}
+			// bounded label, directly on what was gathered
+			for k := range got["pod_security_evaluations_total"] {
+				parts := strings.Split(strings.Trim(k, "[]"), ",")
+				v := strings.Trim(parts[2], `"`)
+				ok := v == "latest" || v == "future"
+				if strings.HasPrefix(v, "v1.") {
+					var m int
+					if _, err := fmt.Sscanf(v, "v1.%d", &m); err == nil && m <= serverMinor {
+						ok = true
+					}
+				}
+				if !ok {
+					c.Violate(Finding{Desc: fmt.Sprintf("policy_version label %q recorded by a server at v1.%d", v, serverMinor), Key: "metric-unbounded-label", Input: J{"series": k}})
+				}
+			}
+			c.Tag("recorder.phase")
+			if ph < phases-1 {
+				rec.Reset()
+				all = append(all, J{"kind": "reset"})
+				got, _ := gather(reg)
+				for name, m := range got {
+					if len(m) != 0 {
+						c.Violate(Finding{Desc: name + " not zero after Reset", Key: "metric-reset"})
+					}
+				}
+			}
+		}
+	}
+}
